@@ -10,6 +10,7 @@ import Mathlib.Algebra.Order.Field.Rat
 import LpModel.C10
 import LpProofs.C10.Lemmas
 import LpProofs.C10.SortDedup
+import LpProofs.C10.Generated
 namespace Lp.C10
 
 /-! ## 1. Vector -/
@@ -469,6 +470,28 @@ theorem localExt_guard_iff (N : Nat) (x : Nat → Rat) (st : Interp.LState) (v1 
         · exact absurd hd1 hd3
       · rw [h2]; simp only [true_iff]; exact fun hh => hd2 hh.2.2
     · rw [h1]; simp only [true_iff]; exact fun hh => hd1 hh.2.1
+
+/-- translator tie: the regenerated `Check_For_Error(x_2 < x_1, …)` condition is the order test of the model -/
+theorem gen_Local_Minimum_eq (N : Nat) (x : Nat → Rat) (st : Interp.LState) (v1 v2 : Rat) :
+    localExtGuard N x st v1 v2 = stop ↔ (Gen.gen_Local_Minimum_order v1 v2 = true ∨ ¬ (inDomain N x v1 ∧ inDomain N x v2)) := by
+  rw [localExt_guard_iff]
+  unfold Gen.gen_Local_Minimum_order localExtMeaningful
+  simp only [decide_eq_true_eq]
+  constructor
+  · intro h; by_contra hn; push Not at hn; exact h ⟨by linarith [hn.1], hn.2.1, hn.2.2⟩
+  · rintro (h | h) ⟨h1, h2, h3⟩
+    · linarith
+    · exact h ⟨h2, h3⟩
+theorem gen_Local_Maximum_eq (N : Nat) (x : Nat → Rat) (st : Interp.LState) (v1 v2 : Rat) :
+    localExtGuard N x st v1 v2 = stop ↔ (Gen.gen_Local_Maximum_order v1 v2 = true ∨ ¬ (inDomain N x v1 ∧ inDomain N x v2)) := by
+  rw [localExt_guard_iff]
+  unfold Gen.gen_Local_Maximum_order localExtMeaningful
+  simp only [decide_eq_true_eq]
+  constructor
+  · intro h; by_contra hn; push Not at hn; exact h ⟨by linarith [hn.1], hn.2.1, hn.2.2⟩
+  · rintro (h | h) ⟨h1, h2, h3⟩
+    · linarith
+    · exact h ⟨h2, h3⟩
 
 theorem interp2Eval_guard_iff (Nx : Nat) (x : Nat → Rat) (sx : Interp.LState) (Ny : Nat) (y : Nat → Rat)
     (sy : Interp.LState) (vx vy : Rat) :
